@@ -81,7 +81,7 @@ def replay_tree(ct, entry, fs, release=False):
             continue
         if syn == ["--syntax", "luau"] and re.search(r"'(DoubleLessThan|DoubleGreaterThan|Ampersand|Pipe)'|\('Bin', 'Tilde'|\('Un', 'Tilde'", repr(ct)):
             continue
-        for lens, pad in itertools.chain([(None, ""), (None, " ")], ((l, "") for l in itertools.product((1, 12, 40), repeat=min(len(ids), 3)))):
+        for lens, pad in itertools.chain([(None, ""), (None, " ")], ((l, "") for l in itertools.product((1, 12, 30, 40), repeat=min(len(ids), 3)))):
             wmap = {i: 1 for i in ids} if lens is None else {i: lens[j % len(lens)] for j, i in enumerate(ids)}
             expr = lua_of(ct, lambda i: wmap[i], pad)
             src = f"local x = {expr}" + (".k" if prefix else "") + "\n"
@@ -91,7 +91,7 @@ def replay_tree(ct, entry, fs, release=False):
                 ein, _ = luaexpr.parse_local_expr(src)
             except luaexpr.LuaSyntaxError:
                 continue          # the model's tree is not valid source in this dialect
-            for cw in (120, 60, 40, 25, 12, 1):
+            for cw in (120, 100, 90, 80, 70, 60, 50, 40, 30, 25, 12, 1):
                 tried += 1
                 rc, out, err = common.run_stylua(binp, src, syn + ["--column-width", str(cw)])
                 if rc != 0:
@@ -129,6 +129,16 @@ def shape_filter(name):
                     w(c)
             w(root)
             return k["Par"] == 1 and k["Un"] >= 1 and k["Un"] + k["Bin"] == 3
+        return f
+    if name == "assertion-3ops-1paren":  # a Luau type assertion among three operators, exactly one parenthesised edge (`a and (b :: T) < c`)
+        def f(root):
+            k = {"Par": 0, "Un": 0, "Bin": 0, "TA": 0}
+            def w(n):
+                k[n.kind] = k.get(n.kind, 0) + 1
+                for c in n.kids:
+                    w(c)
+            w(root)
+            return k["Par"] == 1 and k["TA"] >= 1 and k["Un"] + k["Bin"] + k["TA"] == 3
         return f
     raise ValueError(name)
 
@@ -213,6 +223,7 @@ def run(ses, rep, plan=None):
         if quick:
             plan.append(("default", 3, 0, False))     # 3 operators, no redundant parentheses: all precedence/associativity triples
             plan.append(("default", 2, 2, False))     # up to two nested parentheses per edge
+            plan.append(("full", 3, 1, True, "assertion-3ops-1paren"))
             plan.append(("default", 3, 1, False, "unary-3ops-1paren"))   # a slice of the thorough bound: `a + (-b) ^ c` and its relatives
         else:
             plan.append(("full", 2, 2, True))
